@@ -147,9 +147,14 @@ def check_vdw(case, ctx):
         Pa = eos.get_P(T=T, V=Va, n=n_)
         if not np.array_equal(Va, Va0):
             ctx.fail('C20.vdw/array-argument-mutated', 'V before %r after %r (n=%r)' % (Va0.tolist(), Va.tolist(), n_))
-        ctx.close('C20.vdw/array=scalars', [list(np.ravel(Ta)), list(np.ravel(Pa))],
-                  [[eos.get_T(V=float(v), P=P, n=n_) for v in Va0], [eos.get_P(T=T, V=float(v), n=n_) for v in Va0]],
-                  rtol=1e-13, detail='n=%r' % n_)
+        ctx.close('C20.vdw/array=scalars:T', list(np.ravel(Ta)), [eos.get_T(V=float(v), P=P, n=n_) for v in Va0], rtol=1e-12,
+                  detail='n=%r' % n_)
+        for v, p_arr in zip(Va0, np.ravel(Pa)):
+            # P = RT/(v-b) - a/v^2 cancels: the two evaluation orders may differ by rounding of the terms, not of the result
+            vm = float(v) / n_
+            terms = (R * T / abs(vm - b) + a / vm ** 2) / BAR
+            ctx.close('C20.vdw/array=scalars:P', p_arr, eos.get_P(T=T, V=float(v), n=n_), rtol=0, atol=1e-13 * terms,
+                      detail='n=%r V=%r' % (n_, float(v)))
     # documented defaults: one mole, the gas-like root
     ctx.close('C20.vdw/defaults', [eos.get_V(T=T, P=P, gas_phase=gas), eos.get_V(T=T, P=P, n=n), eos.get_Vm(T=T, P=P)],
               [eos.get_V(T=T, P=P, n=1., gas_phase=gas), eos.get_V(T=T, P=P, n=n, gas_phase=True),
